@@ -178,7 +178,8 @@ def main():
             known_lines.append("KNOWN-FINDING: property=%s %s" % (prop, f.get("what_fails", f.get("obligation", ""))))
 
     violations = []
-    rdir = os.path.join(ROOT, "replays", prop)
+    OUT = os.environ.get("VERIF_OUT", ROOT)  # developer runs against scratch copies write elsewhere
+    rdir = os.path.join(OUT, "replays", prop)
     nfail = [] if native is None else [f for f in native.get("failures", []) if not any(f["key"].startswith(k) for k in suppressed_native)]
     unlisted_bad = {oid: r for oid, r in bad.items() if oid not in suppressed_obl}
     from native.common import write_replay
@@ -240,8 +241,8 @@ def main():
     cov["explanation"] = cfg.get("explanation", "") + (" | run-time: %d/%d obligations discharged; undischarged ones are listed under 'undischarged'" % (n_dis, n_obl))
     ev = {"property_id": prop, "tier": tier, "seed": seed, "level": level, "coverage": cov,
           "assumptions": ASSUMPTIONS + cfg.get("assumptions", []), "wall_s": round(time.time() - t0, 2), "violations": len(violations)}
-    os.makedirs(os.path.join(ROOT, "evidence"), exist_ok=True)
-    json.dump(ev, open(os.path.join(ROOT, "evidence", prop + ".json"), "w"), indent=1, default=str)
+    os.makedirs(os.path.join(OUT, "evidence"), exist_ok=True)
+    json.dump(ev, open(os.path.join(OUT, "evidence", prop + ".json"), "w"), indent=1, default=str)
     print("%s: %d/%d obligations discharged, %s, %.1fs" % (prop, n_dis, n_obl,
           "native %d evaluations, %d failures" % (native.get("evaluations", 0), len(native.get("failures", []))) if native else "no native stand-in", time.time() - t0))
     sys.exit(1 if violations else 0)
